@@ -64,6 +64,30 @@ void lifetime_history(Index *&X, const std::string &steps, AnswerFn answers, Oth
             if constexpr (can_move_construct<Index>) { if (!Y && x_alive) { Y = new Index(std::move(*X)); x_moved = true; st.inc("steps.move-construct"); } }
         } else if (s == "move-assign") {
             if constexpr (can_move_assign<Index>) { if (!Y && x_alive) { Y = new Index(); *Y = std::move(*X); x_moved = true; st.inc("steps.move-assign"); } }
+        } else if (s == "rederive-copy") {
+            // a second derivation: the derived object (possibly obtained by a move) is itself copied and the copy replaces it
+            if constexpr (can_copy_construct<Index>) { if (Y) { Index *Z = new Index(*Y); delete Y; Y = Z; st.inc("steps.rederive-copy"); } }
+        } else if (s == "rederive-move") {
+            if constexpr (can_move_construct<Index>) { if (Y) { Index *Z = new Index(std::move(*Y)); delete Y; Y = Z; st.inc("steps.rederive-move"); } }
+        } else if (s == "swap-there-and-back") {
+            // std::swap with another built object (three moves each way); Y must end up with its own content again
+            if constexpr (can_move_construct<Index> && can_move_assign<Index>) {
+                if (Y) { Index *O = make_other(); std::swap(*Y, *O); std::swap(*O, *Y); delete O; st.inc("steps.swap"); }
+            }
+        } else if (s == "vector-growth") {
+            // the derived object lives in a std::vector that reallocates (elements are moved if the move constructor is
+            // noexcept, copied otherwise); it is then taken out again by copy (or move)
+            if constexpr (can_copy_construct<Index> || can_move_construct<Index>) {
+                if (Y) {
+                    std::vector<Index> v;
+                    v.reserve(1);
+                    v.push_back(std::move(*Y));
+                    delete Y; Y = nullptr;
+                    for (int g = 0; g < 3; ++g) { Index *O = make_other(); v.push_back(std::move(*O)); delete O; }
+                    if constexpr (can_copy_construct<Index>) Y = new Index(v[0]); else Y = new Index(std::move(v[0]));
+                    st.inc("steps.vector-growth");
+                }
+            }
         } else if (s == "self-assign") {
             if constexpr (can_copy_assign<Index>) { if (Y) { Index &ref = *Y; *Y = ref; st.inc("steps.self-assign"); } }
         } else if (s == "destroy-source") {
@@ -100,6 +124,10 @@ inline std::string draw_lifetime_steps(Rng &r) {
     if (r.coin()) rest.push_back("query-copy");
     if (r.chance(300)) rest.push_back("query-source");
     if (r.chance(200)) rest.push_back("self-assign");
+    if (r.chance(250)) rest.push_back("rederive-copy");
+    if (r.chance(150)) rest.push_back("rederive-move");
+    if (r.chance(150)) rest.push_back("swap-there-and-back");
+    if (r.chance(150)) rest.push_back("vector-growth");
     if (r.chance(300)) rest.push_back("churn");
     for (size_t i = rest.size(); i > 1; --i) std::swap(rest[i - 1], rest[r.below(i)]);
     for (auto &x : rest) s += " " + x;
@@ -143,7 +171,11 @@ struct StaticClass {
         p.set("qseed", work.next() >> 1);
         if (!scale) p.set("qmax", large ? 1500 : 2000);
         if (!p.has("recipe")) { Rng shape = sim::stream(g.run_seed, "shape"); Tr::post_keys(p, shape); }
-        if (!scale && !scale19 && (g.prop == "C08" || g.prop == "C09" || g.prop == "C10" || g.prop == "C18" || g.prop == "C17") && cfg.chance(g.prop == "C18" ? 400 : 150)) p.set("successor", cfg.chance(300) ? 2 : 1);
+        if (!scale && !scale19 && (g.prop == "C08" || g.prop == "C09" || g.prop == "C10" || g.prop == "C18" || g.prop == "C17") && cfg.chance(g.prop == "C18" ? 400 : 150)) {
+            p.set("successor", cfg.chance(300) ? 2 : 1);
+            if (large) { p.set("successor_same_data", 1); p.set("successor_procs", cfg.range(1, 20)); }
+        }
+        if (!scale && !scale19 && (g.prop == "C08" || g.prop == "C09" || g.prop == "C10" || g.prop == "C18" || g.prop == "C17") && cfg.chance(g.prop == "C18" ? 150 : 60)) p.set("pre_reject", 1);
         if (g.prop == "C19") { p.set("steps", draw_lifetime_steps(cfg)); p.set("qmax", scale19 ? 20000 : (large ? 300 : 400)); }
         if (g.prop == "C20") p.set("reserved_copies", cfg.range(1, 3));
         p.set("known_skip", 1); // queries inside the query-level predicate of a known finding are executed but not judged
@@ -184,6 +216,16 @@ struct StaticClass {
         const size_t n = data.size();
         if (n == 0) { out.trace_hash = tr.h; return out; }
         const int c0 = chunks_for(env, n);
+        if (p.get_u("pre_reject", 0)) {
+            // History step: a construction that is (correctly) rejected because of the reserved value precedes the real one on
+            // the same thread; whatever it leaves behind (scratch buffers, statics) must not reach the next index
+            std::vector<K> bad(data);
+            bad.push_back(std::numeric_limits<K>::has_infinity ? std::numeric_limits<K>::infinity() : std::numeric_limits<K>::max());
+            sim::begin_run(env);
+            try { std::unique_ptr<Index> r(Tr::build(bad)); (void) r; } catch (const std::exception &) {}
+            sim::end_run();
+            st.inc("pre_reject_runs");
+        }
         sim::begin_run(env);
         Index *idx = nullptr;
         try {
@@ -255,8 +297,11 @@ struct StaticClass {
             if (side_by_side) first = idx; else delete idx;
             idx = nullptr;
             std::vector<K> data2;
-            for (size_t i = 0; i < n; ++i) if ((i & 1) || i + 1 == n) data2.push_back(data[i]);
-            sim::begin_run(env);
+            const bool same_data = p.get_u("successor_same_data", 0) != 0; // large inputs: keep n (and the chunked build) for the second construction
+            for (size_t i = 0; i < n; ++i) if (same_data ? (i != n / 2 || n < 3) : ((i & 1) || i + 1 == n)) data2.push_back(data[i]);
+            sim::Env env2 = env;
+            if (uint64_t sp = p.get_u("successor_procs", 0)) { env2.procs = (int) sp; env2.max_threads = (int) sp; } // another team size than the first build's
+            sim::begin_run(env2);
             try { idx = Tr::build(data2); } catch (const std::exception &e) { idx = nullptr; }
             sim::end_run();
             if (!idx) { delete first; if (prop != "C17") out.fail("ctor-exception", "successor index: constructor threw on in-domain data"); out.trace_hash = tr.h; return out; }
